@@ -24,6 +24,10 @@ func (b *Branch) clone() *Branch {
 
 // History is a generated room DAG.
 type History struct {
+	// OddKeys: also send state events whose TYPE is that of a control event (m.room.create, m.room.power_levels,
+	// m.room.join_rules) under a NON-EMPTY state key.  They are ordinary state ("others"), distinct from the room's
+	// control events, and must be resolved slot by slot like any other (type, state_key).
+	OddKeys  bool
 	G        *RoomGen
 	All      []*Ev          // every event, in creation order (ancestors first)
 	ByID     map[string]*Ev // by event ID
@@ -89,10 +93,30 @@ func (h *History) Send(r *Rng, b *Branch, typ, sender string, stateKey *string, 
 	return e
 }
 
+// Force appends an event to branch b and puts it into the branch state whatever the auth rules say about it (state
+// sets received from other servers may hold anything).
+func (h *History) Force(b *Branch, typ, sender string, stateKey string, content interface{}, ts int) *Ev {
+	auth := h.authFor(b, typ, sender, &stateKey, content)
+	extra := map[string]interface{}{"origin_server_ts": ts, "depth": b.Depth + 1}
+	e := h.G.Mk(typ, sender, &stateKey, content, []string{b.Tip}, auth, extra)
+	if e == nil {
+		return nil
+	}
+	h.All = append(h.All, e)
+	h.ByID[e.ID] = e
+	b.Tip = e.ID
+	b.Depth++
+	b.State[gmsl.StateKeyTuple{EventType: typ, StateKey: stateKey}] = e
+	return e
+}
+
 // GenHistory builds a room with forks.
-func GenHistory(r *Rng, ver string, size int) *History {
+func GenHistory(r *Rng, ver string, size int) *History { return GenHistoryOpt(r, ver, size, false) }
+
+// GenHistoryOpt: oddKeys as History.OddKeys (with oddKeys = false the random stream is that of GenHistory).
+func GenHistoryOpt(r *Rng, ver string, size int, oddKeys bool) *History {
 	g := NewRoomGen(r, ver)
-	h := &History{G: g, ByID: map[string]*Ev{}, Rejected: map[string]bool{}}
+	h := &History{G: g, ByID: map[string]*Ev{}, Rejected: map[string]bool{}, OddKeys: oddKeys}
 	verImpl := gmsl.MustGetRoomVersion(gmsl.RoomVersion(ver))
 	users := []string{"@creator:hs1", "@alice:hs1", "@bob:hs2", "@carol:hs3", "@dave:hs2"}
 	creator := users[0]
@@ -127,7 +151,34 @@ func GenHistory(r *Rng, ver string, size int) *History {
 	for _, u := range users[1:4] {
 		h.Send(r, root, spec.MRoomMember, u, sp(u), map[string]interface{}{"membership": "join"}, nextTS())
 	}
+	oddEvent := func(b *Branch, sender string) {
+		typ := Pick(r, []string{spec.MRoomPowerLevels, spec.MRoomPowerLevels, spec.MRoomJoinRules, spec.MRoomCreate})
+		sk := Pick(r, []string{"k", "k", users[1], "x"})
+		var content interface{}
+		switch typ {
+		case spec.MRoomPowerLevels:
+			cur := map[string]interface{}{}
+			if e, ok := b.State[gmsl.StateKeyTuple{EventType: spec.MRoomPowerLevels, StateKey: ""}]; ok {
+				cur = plContentOf(e)
+			}
+			content = r.tweakPL(cur, users[1:], Pick(r, []int64{0, 50, 100}))
+		case spec.MRoomJoinRules:
+			content = map[string]interface{}{"join_rule": Pick(r, []string{"public", "invite", "knock"})}
+		default:
+			content = map[string]interface{}{"creator": creator, "room_version": ver, "v": r.Intn(100)}
+		}
+		if r.Chance(50) {
+			if h.Send(r, b, typ, sender, sp(sk), content, nextTS()) != nil {
+				return
+			}
+		}
+		h.Force(b, typ, sender, sk, content, nextTS())
+	}
 	branches := []*Branch{root}
+	if oddKeys && r.Chance(60) {
+		// before the first fork: the key is then one on which every state set agrees (unless a branch changes it)
+		oddEvent(root, creator)
+	}
 	for i := 0; i < size; i++ {
 		b := Pick(r, branches)
 		if len(branches) < 4 && r.Chance(18) {
@@ -136,6 +187,10 @@ func GenHistory(r *Rng, ver string, size int) *History {
 			b = nb
 		}
 		sender := Pick(r, users)
+		if oddKeys && r.Chance(22) {
+			oddEvent(b, sender)
+			continue
+		}
 		switch r.Intn(10) {
 		case 0, 1, 2: // membership of self
 			m := Pick(r, []string{"join", "leave", "join", "knock"})
